@@ -86,12 +86,27 @@ impl foyer::Code for HVal {
     }
 }
 
+/// Harness time as last set by whoever drives the execution (World::tick, Engine TH's threads).
+pub static NOW: AtomicU64 = AtomicU64::new(0);
+static ADMISSIONS: Mutex<Vec<(u64, u64)>> = Mutex::new(Vec::new());
+
+/// (hash, harness time) of every entry offered to the disk tier (the admission filter runs in
+/// `Store::enqueue`) since the last call.
+pub fn admissions_take() -> Vec<(u64, u64)> {
+    ADMISSIONS.lock().map(|mut v| std::mem::take(&mut *v)).unwrap_or_default()
+}
+
 #[derive(Debug)]
 struct ProbeFilter;
 
 impl foyer::StorageFilterCondition for ProbeFilter {
-    fn filter(&self, _: &Arc<foyer::Statistics>, _: u64, _: usize) -> foyer::StorageFilterResult {
+    fn filter(&self, _: &Arc<foyer::Statistics>, hash: u64, _: usize) -> foyer::StorageFilterResult {
         lock_probe("AdmissionFilter");
+        if let Ok(mut v) = ADMISSIONS.lock() {
+            if v.len() < 4096 {
+                v.push((hash, NOW.load(Ordering::SeqCst)));
+            }
+        }
         foyer::StorageFilterResult::Admit
     }
 }
@@ -395,10 +410,12 @@ pub struct History {
     pub panics: Vec<String>,
     /// User callbacks that ran while the calling thread held a cache lock (C16, see `lock_probe`).
     pub lock_held: Vec<String>,
+    /// (hash, time) of entries offered to the disk tier (filled in by Engine TH only).
+    pub admissions: Vec<(u64, u64)>,
 }
 
 impl History {
-    fn new_ver(&mut self, k: u64) -> u64 {
+    pub(crate) fn new_ver(&mut self, k: u64) -> u64 {
         let e = self.next_ver.entry(k).or_insert(0);
         *e += 1;
         *e
@@ -606,8 +623,9 @@ impl World {
         self.clock.load(Ordering::SeqCst)
     }
 
-    fn tick(&self) -> u64 {
+    pub(crate) fn tick(&self) -> u64 {
         let t = self.clock.fetch_add(1, Ordering::SeqCst) + 1;
+        NOW.store(t, Ordering::SeqCst);
         self.io.set_clock(t);
         sim::set_time(t);
         t
@@ -743,7 +761,7 @@ impl World {
         self.io.set_auto(false);
     }
 
-    fn props(loc: Loc) -> HybridCacheProperties {
+    pub(crate) fn props(loc: Loc) -> HybridCacheProperties {
         HybridCacheProperties::default().with_location(match loc {
             Loc::Default => Location::Default,
             Loc::InMem => Location::InMem,
@@ -791,7 +809,7 @@ impl World {
         });
     }
 
-    fn lookup_result(r: Result<Option<HE>, foyer::Error>, want_key: u64) -> LookupRes {
+    pub(crate) fn lookup_result(r: Result<Option<HE>, foyer::Error>, want_key: u64) -> LookupRes {
         match r {
             Ok(None) => LookupRes::Miss,
             Ok(Some(e)) => {
